@@ -2,7 +2,7 @@
     Model/Session.v, the histories the harness ran against the real limiter,
     handleLogin and Auth, and compares the projected observables step by
     step. *)
-From AGH Require Import Base.Run Model.RateLimit Model.Session Model.SessionConc.
+From AGH Require Import Base.Run Model.RateLimit Model.Session Model.SessionConc Model.LoginConc.
 From stdpp Require Import gmap.
 Local Open Scope Z_scope.
 
@@ -82,7 +82,14 @@ Inductive case :=
      finished; [res]: per request, 0 served / 3 refused; [post]: sequential
      steps afterwards (replays of the cookies, restarts). *)
   | CConc (dict : list bytes) (ttl : N) (pre : list (sess_op * (stable * stable)))
-          (evs : list conc_ev) (res : list Z) (post : list (sess_op * (stable * stable))).
+          (evs : list conc_ev) (res : list Z) (post : list (sess_op * (stable * stable)))
+  (* round 7: [k] wrong-password POST /control/login from one address in
+     flight at once through the registered chain, the evaluation of passwords
+     held back (the harness holds a.lock, which findUser needs).  Observed:
+     how many requests are parked inside ensure on the control lock
+     ([at_ctl]) and how many inside findUser ([at_eval]) once all have
+     started; after the release, how many were answered 403 and 429. *)
+  | CLoginBurst (max : N) (block : Z) (k : N) (at_ctl at_eval n403 n429 : N).
 
 (** * Comparison of tables *)
 
@@ -367,6 +374,33 @@ Definition conc_first_bad (dict : list bytes) (ttl : N) (pre : list (sess_op * (
   | st :: _ => sess_replay dict (sstate_of st) (n2 + 2) post
   end.
 
+(** * Round 7: simultaneous logins *)
+
+Definition burst_att : att :=
+  {| a_now := 0; a_now2 := 0; a_addr := [49%N]; a_hdr := None; a_trusted := false; a_ok := false |}.
+
+Definition count_out (p : login_out -> bool) (l : list login_out) : N := N.of_nat (length (List.filter p l)).
+
+(** With the control lock (the code): after every request has arrived and the
+    first one is held inside findUser, all the others wait for the lock; the
+    answers are those of the sequential history (C12_logins_serialised). *)
+Definition burst_ok (max : N) (block : Z) (k at_ctl at_eval n403 n429 : N) : bool :=
+  let c := {| rl_ttl := minute_ns; rl_block := block; rl_max := max |} in
+  let atts := repeat burst_att (N.to_nat k) in
+  match lstep true c 0 (linit ∅ atts) with
+  | None => false
+  | Some st1 =>
+      let idx := seq 0 (length atts) in
+      let waiting := List.filter (fun i => match l_thr st1 !! i with
+                                           | Some (_, LStart) => match lstep true c i st1 with None => true | Some _ => false end
+                                           | _ => false end) idx in
+      let inside := List.filter (fun i => match l_thr st1 !! i with Some (_, LChecked) => true | _ => false end) idx in
+      let outs := snd (run_logins c ∅ atts) in
+      (N.of_nat (length waiting) =? at_ctl)%N && (N.of_nat (length inside) =? at_eval)%N &&
+      (count_out (fun o => match o with L403 => true | _ => false end) outs =? n403)%N &&
+      (count_out (fun o => match o with L429 _ => true | _ => false end) outs =? n429)%N
+  end.
+
 Definition first_bad (c : case) : Z :=
   match c with
   | CLim max ttl block steps =>
@@ -379,6 +413,7 @@ Definition first_bad (c : case) : Z :=
       then login_replay_opt (mk_limiter {| ac_attempts := att; ac_block_min := blk |}) tol ∅ 0%N 1 steps
       else -1
   | CConc dict ttl pre evs res post => conc_first_bad dict ttl pre evs res post
+  | CLoginBurst max block k a b n403 n429 => if burst_ok max block k a b n403 n429 then 0 else 1
   end.
 
 Definition case_ok (c : case) : bool := first_bad c =? 0.
@@ -451,4 +486,8 @@ Definition explain (c : case) : Z * (ltable * list (Z * Z) * (list (bytes * (byt
                         (dump_s (c_mem st), dump_s (c_disk st))))
       | [] => (i, ([], [], ([], [])))
       end
+  | CLoginBurst max block k _ _ _ _ =>
+      (i, ([], login_outs {| rl_ttl := minute_ns; rl_block := block; rl_max := max |} ∅
+                 (repeat {| ls_kind := 0; ls_now := 0; ls_now_hi := 0; ls_now2 := 0; ls_addr := [49%N]; ls_hdr := None; ls_trusted := false;
+                            ls_ok := false; ls_status := 0; ls_retry := 0; ls_nsess := 0%N; ls_tab := [] |} (N.to_nat k)), ([], [])))
   end.
